@@ -37,3 +37,4 @@ def run(ck):
     factors.r27_opacity_test_on_unpacked_pixel(ck, P)
     geometry.r_wide_division_numerator(ck, P)        # the scaled fast paths' padding bounds against the general path
     opacity.r6_outside_is_transparent(ck, P, 'C02-R30')      # the C fast fetchers against the general ones: a tap outside a NONE image is transparent in both
+    status.r_dst_operator_never_dispatched(ck, P)
